@@ -16,7 +16,7 @@ def run(ctx):
     cov["tlc"] = {}
     if quick:
         build_c = {"Caps": "{41, 42, 62, 342, 1522}", "NSmall": "{0, 1, 17, 18}", "PortClasses": '{"dhcp", "mdns", "plain"}',
-                   "DhcpCodes": "{1, 3, 6, 51}", "MaxOpts": "4", "Parts": '{"build"}'}
+                   "DhcpCodes": "{1, 3, 6, 51}", "MaxOpts": "4", "Parts": '{"build", "alias"}'}
         dhcp_c = {"DhcpCodes": "{1, 3, 6, 12, 33, 43, 51, 121}", "MaxOpts": "4", "ReqCodes": "{1, 3, 6, 43, 53}", "MaxReq": "2",
                   "BigCode": "43", "BigLens": "{0, 1, 64, 254, 255}",
                   "DhcpCaps": "{299, 300, 301, 1472}", "Parts": '{"dhcp"}'}
@@ -24,7 +24,7 @@ def run(ctx):
     else:
         build_c = {"Caps": "{41, 42, 60, 62, 342, 343, 1514, 1522}", "NSmall": "{0, 1, 2, 17, 18, 45, 46}",
                    "PortClasses": '{"dhcp", "mdns", "nbns", "ssdp", "llmnr", "plain"}',
-                   "DhcpCodes": "{1, 3, 6, 12, 51, 121}", "MaxOpts": "6", "Parts": '{"build"}'}
+                   "DhcpCodes": "{1, 3, 6, 12, 51, 121}", "MaxOpts": "6", "Parts": '{"build", "alias"}'}
         dhcp_c = {"DhcpCodes": "{1, 3, 6, 12, 15, 33, 51, 54, 121}", "MaxOpts": "4", "ReqCodes": "{1, 3, 6, 12, 53, 121}", "MaxReq": "3",
                   "DhcpCaps": "{299, 300, 301, 1472}", "Parts": '{"dhcp"}'}
         # second thorough run: the value length of option 43 ranges over the boundary classes
@@ -60,6 +60,8 @@ def run(ctx):
             if v["part"] == "dhcp":
                 if v["exp"]["res"] == "ok":
                     distinct.add(wc.abstract_digest(v))
+            elif v["part"] == "alias":
+                distinct.add(wc.abstract_digest(v))
             elif len(v["hist"]) >= 3:
                 distinct.add(wc.abstract_digest(v))
         samples += wc.sample_vectors(vecs, 2)
@@ -81,7 +83,8 @@ def run(ctx):
         "field values (MAC/IP/port/ttl/id/seq/xid/option bytes) are sampled from VERIF_SEED; lengths, capacities, option sets and orders are enumerated by TLC",
         "the reference decoder harness/vh/wire_refdecode.go is trusted (it shares no code with the library)",
         "ICMP checksums are filled in by the harness before reference decoding (the encoders leave them to the send path: C07)",
-        "documented preconditions are respected: EncodeIP4/EncodeIP6 get at least a header of capacity, SetPayload/AppendPayload are called on header-only slices, option maps fit the buffer",
+        "documented preconditions are respected: EncodeIP4/EncodeIP6 get at least a header of capacity, option maps fit the buffer; SetPayload/AppendPayload are exercised on header-only slices and, in the rewrite sequences, on views that already carry a payload",
+        "aliased arguments: the reply-in-place patterns marked `required` in AliasCases are property level; patterns the encoders' write order cannot support are only noted",
     ]
 
 
